@@ -4,6 +4,27 @@ SIM_NOTE = ("trusted base: the behavioural nRF24L01+ simulator (vlib/sim, self-t
             "driver; chip assumptions (a)-(e) of DESIGN.md 2.6")
 
 CHECKS = [
+    {"property_id": "C01", "level": "exploration",
+     "text": "Hypothesis-generated link configurations x payload lists, executed on two simulated radios through the public API; "
+             "the received sequence, pipe, any(), the W_TX_PAYLOAD bytes on the SPI bus and the caller's buffers are compared "
+             "with the documented padding/truncation/rejection rule; sampled inputs, no exhaustiveness claimed",
+     "design_ref": "4/C01", "note": SIM_NOTE,
+     "technique": "property-based testing (Hypothesis composite generator) with a documented-rule oracle on a simulated link"},
+    {"property_id": "C03", "level": "exploration",
+     "text": "model-based: all ordered pairs (quick) / triples (thorough) of 104 boundary configuration calls, each followed by a "
+             "with-block re-entry and an all-getters step, plus Hypothesis call lists to length 40 with in- and out-of-domain "
+             "arguments; after every call the chip's complete register file, its reserved/illegal-write log, the outcome kind and "
+             "the getters are compared with a register model written from the documentation; exhaustive only for the stated call list",
+     "design_ref": "4/C03", "note": SIM_NOTE + "; vlib/ref/regs.py is the specification of the documented encodings",
+     "technique": "model-based property testing: bounded-exhaustive call pairs/triples + Hypothesis call sequences vs register reference model"},
+    {"property_id": "C08", "level": "exploration",
+     "text": "breadth-first enumeration of every call sequence to depth 4 (quick) / 5-6 (thorough) over a 14-symbol alphabet of "
+             "pipe-0 opens/closes, open_tx_pipe, auto-ack changes and listen toggles for address widths 3..5, Hypothesis "
+             "sequences to length 40 beyond; registers after every call are compared with the reference model of the user's "
+             "pipe 0, CE/role-change discipline is read from the chip trace, and each sequence ends with a behavioural probe "
+             "(packet to the user's address / send() to a listening peer)",
+     "design_ref": "4/C08", "note": SIM_NOTE,
+     "technique": "bounded-exhaustive call-sequence enumeration + Hypothesis sequences vs reference model, with on-air probes"},
     {"property_id": "C02", "level": "fault_enumeration",
      "text": "every D/P/A outcome word over the (1+arc)(1+force_retry) attempts is enumerated for arc<=1 (quick) / arc<=2 "
              "(thorough), force_retry<=1, x {auto-ack, ACK payload loaded/empty} x send_only x follow-up call, plus "
